@@ -25,7 +25,11 @@ func Root() string {
 	return "/verif"
 }
 
+type crashInfo struct{ key, stderr string }
+
 type workerOutcome struct {
+	crashes  []crashInfo
+	flaky    []string
 	res      *Result
 	crashed  bool
 	stderr   string
@@ -68,22 +72,41 @@ func runWorker(self, id, tier string, shard, n int, seed int64, tmp string) work
 			f.Close()
 			continue
 		}
-		// genuine crash: re-run in trace mode to attribute it to a case
-		wo.crashed, wo.stderr = true, eb.String()
+		// genuine crash: re-run in trace mode to attribute it to a case, then restart the
+		// shard with that case on the skip list so the rest of the shard is still explored
+		crashErr := eb.String()
 		tr := filepath.Join(tmp, fmt.Sprintf("w%d.trace", shard))
 		cmd = exec.Command(self, "worker", id, tier, strconv.Itoa(shard), strconv.Itoa(n), strconv.FormatInt(seed, 10), out)
 		cmd.Env = append(os.Environ(), "VCHECK_SKIP="+skipFile, "VCHECK_TRACE="+tr, "GOMAXPROCS=2", "GOTRACEBACK=single")
 		var eb2 bytes.Buffer
 		cmd.Stderr = &capWriter{buf: &eb2, cap: 1 << 16}
+		cmd.Stdout = os.Stderr
 		if err2 := cmd.Run(); err2 != nil {
-			wo.crashKey = lastLine(tr)
+			key := lastLine(tr)
+			os.Remove(tr)
 			if eb2.Len() > 0 {
-				wo.stderr = eb2.String()
+				crashErr = eb2.String()
 			}
-		} else {
-			wo.crashKey = "(crash did not reproduce in trace mode)"
+			if classifyCrash(crashErr) == "" || key == "" {
+				wo.crashed, wo.stderr, wo.crashKey = true, crashErr, key
+				return wo
+			}
+			wo.crashes = append(wo.crashes, crashInfo{key: key, stderr: crashErr})
+			f, _ := os.OpenFile(skipFile, os.O_CREATE|os.O_APPEND|os.O_WRONLY, 0o644)
+			fmt.Fprintln(f, key)
+			f.Close()
+			continue
 		}
 		os.Remove(tr)
+		// the crash did not reproduce in trace mode: the traced run completed, use its result
+		b, rerr := os.ReadFile(out)
+		var r Result
+		if rerr == nil && json.Unmarshal(b, &r) == nil {
+			wo.res = &r
+			wo.flaky = append(wo.flaky, head(crashErr, 600))
+			return wo
+		}
+		wo.crashed, wo.stderr = true, crashErr
 		return wo
 	}
 	wo.crashed, wo.stderr = true, "too many resource-limit restarts"
@@ -182,6 +205,11 @@ func Supervise(self, id, tier string) int {
 	}
 	defer os.RemoveAll(tmp)
 
+	if olds, err := filepath.Glob(filepath.Join(root, "replays", id, "*.json*")); err == nil {
+		for _, o := range olds {
+			os.Remove(o)
+		}
+	}
 	outs := make([]workerOutcome, n)
 	var wg sync.WaitGroup
 	for i := 0; i < n; i++ {
@@ -200,6 +228,19 @@ func Supervise(self, id, tier string) int {
 	harnessErr := false
 	for i, wo := range outs {
 		skipped = append(skipped, wo.skipped...)
+		for _, ci := range wo.crashes {
+			sub, key := "", ci.key
+			if j := strings.IndexByte(key, '\t'); j >= 0 {
+				sub, key = key[:j], key[j+1:]
+			}
+			viols = append(viols, Violation{Property: id, Check: sub, Key: key, Kind: classifyCrash(ci.stderr),
+				Detail: map[string]any{"stderr_head": head(ci.stderr, 1500), "crash": true}})
+			merged.NViolations++
+		}
+		for _, fl := range wo.flaky {
+			harnessErr = true
+			fmt.Fprintf(os.Stderr, "worker %d crashed once but not when re-run in trace mode:\n%s\n", i, fl)
+		}
 		if wo.crashed {
 			kind := classifyCrash(wo.stderr)
 			if kind == "" {
